@@ -75,21 +75,51 @@ Atoms == {"a", "b", "c", "d"}
 Top == 1000     \* no limit
 
 \* trees:  <<"atom", x>>  <<"par", T>>  <<"bin", op, L, R>>  <<"pre", op, T>>  <<"suf", op, T>>
-\*         <<"idx", T, args>>  <<"call", args>>  <<"list", args>>      (args: sequence of trees)
+\*         <<"idx", T, args>>  <<"call", args>>  <<"list", args>>  <<"map", args>>
+\*         args: sequence of items - trees, <<"empty">> (omitted positional argument) and <<"nv", K, V>> (named argument)
 Res(ok, t, p) == [ok |-> ok, t |-> t, p |-> p]
 Fail(p) == Res(FALSE, <<"err">>, p)
 Tok(toks, p) == IF p <= Len(toks) THEN toks[p] ELSE "$end"
 
-RECURSIVE ParseExpr(_, _, _, _), ParsePrimary(_, _, _), ParseLoop(_, _, _, _, _), ParseArgs(_, _, _, _, _)
+RECURSIVE ParseExpr(_, _, _, _), ParsePrimary(_, _, _), ParseLoop(_, _, _, _, _), ArgItems(_, _, _, _, _, _)
 
-\* args : expr ("," expr)*  up to the closing token; at least one expression (empty argument lists are written f())
-ParseArgs(ops, toks, p, close, acc) ==
-    IF Tok(toks, p) = close /\ acc = <<>> THEN Res(TRUE, <<>>, p + 1)
+\* the name-value-pair symbol of the table ("" when the table has none: the legacy table)
+NvpSym(ops) == IF \E i \in 1..Len(ops) : ~IsSep(ops[i]) /\ ops[i][2] = "nvp"
+               THEN ops[CHOOSE i \in 1..Len(ops) : ~IsSep(ops[i]) /\ ops[i][2] = "nvp"][1] ELSE ""
+MapAvailable(ops) == HasRole(ops, "{}", BinTypes)
+
+\* argument lists (parser.py p_args / p_arg_list / p_incomplete_arg_list / p_named_arg_list):
+\*   args  : (slot ",")* value  |  named ("," named)*  |  (slot ",")* value "," [","] named ("," named)*  |  nothing
+\*   slot  : value | nothing (an omitted positional argument, NO_VALUE)
+\*   named : value nvp value
+\* i.e. positional slots may be empty except the last one; exactly one further empty slot may separate the positional part
+\* from the named part; named arguments come last and are never empty.
+\* items:  tree | <<"empty">> | <<"nv", K, V>>
+Empty == <<"empty">>
+RECURSIVE TrailingEmpties(_)
+TrailingEmpties(acc) == IF acc # <<>> /\ acc[Len(acc)] = Empty THEN 1 + TrailingEmpties(SubSeq(acc, 1, Len(acc) - 1)) ELSE 0
+NamedMayFollow(acc) == acc = <<>> \/ TrailingEmpties(acc) = 0 \/ (TrailingEmpties(acc) = 1 /\ Len(acc) >= 2)
+
+\* an item is expected at p
+ArgItems(ops, toks, p, close, acc, named) ==
+    IF Tok(toks, p) = "," /\ ~named THEN ArgItems(ops, toks, p + 1, close, Append(acc, Empty), FALSE)
     ELSE LET e == ParseExpr(ops, toks, p, Top)
          IN IF ~e.ok THEN e
-            ELSE IF Tok(toks, e.p) = "," THEN ParseArgs(ops, toks, e.p + 1, close, Append(acc, e.t))
+            ELSE IF NvpSym(ops) # "" /\ Tok(toks, e.p) = NvpSym(ops) THEN
+                 LET v == ParseExpr(ops, toks, e.p + 1, Top)
+                     acc2 == Append(acc, <<"nv", e.t, v.t>>)
+                 IN IF ~v.ok THEN v
+                    ELSE IF ~named /\ ~NamedMayFollow(acc) THEN Fail(e.p)
+                    ELSE IF Tok(toks, v.p) = "," THEN ArgItems(ops, toks, v.p + 1, close, acc2, TRUE)
+                    ELSE IF Tok(toks, v.p) = close THEN Res(TRUE, acc2, v.p + 1)
+                    ELSE Fail(v.p)
+            ELSE IF named THEN Fail(e.p)
+            ELSE IF Tok(toks, e.p) = "," THEN ArgItems(ops, toks, e.p + 1, close, Append(acc, e.t), FALSE)
             ELSE IF Tok(toks, e.p) = close THEN Res(TRUE, Append(acc, e.t), e.p + 1)
             ELSE Fail(e.p)
+
+ParseArgs(ops, toks, p, close, acc) ==
+    IF Tok(toks, p) = close THEN Res(TRUE, <<>>, p + 1) ELSE ArgItems(ops, toks, p, close, <<>>, FALSE)
 
 ParsePrimary(ops, toks, p) ==
     LET t == Tok(toks, p)
@@ -101,6 +131,8 @@ ParsePrimary(ops, toks, p) ==
             LET a == ParseArgs(ops, toks, p + 1, ")", <<>>) IN IF a.ok THEN Res(TRUE, <<"call", a.t>>, a.p) ELSE a
        ELSE IF t = "[" /\ IndexLevel(ops) # 0 THEN
             LET a == ParseArgs(ops, toks, p + 1, "]", <<>>) IN IF a.ok THEN Res(TRUE, <<"list", a.t>>, a.p) ELSE a
+       ELSE IF t = "{" /\ MapAvailable(ops) THEN
+            LET a == ParseArgs(ops, toks, p + 1, "}", <<>>) IN IF a.ok THEN Res(TRUE, <<"map", a.t>>, a.p) ELSE a
        ELSE IF IsPre(ops, t) THEN
             \* a prefix operator takes the tightest operand its group allows: everything binding tighter than its
             \* level, and right-associative operators of its own level
@@ -136,6 +168,9 @@ YieldArgs(as) == IF as = <<>> THEN <<>>
                  ELSE Yield(Head(as)) \o (IF Len(as) > 1 THEN <<",">> ELSE <<>>) \o YieldArgs(Tail(as))
 Yield(t) ==
     CASE t[1] = "atom" -> <<t[2]>>
+      [] t[1] = "empty" -> <<>>
+      [] t[1] = "nv"   -> Yield(t[2]) \o <<"=>">> \o Yield(t[3])
+      [] t[1] = "map"  -> <<"{">> \o YieldArgs(t[2]) \o <<"}">>
       [] t[1] = "par"  -> <<"(">> \o Yield(t[2]) \o <<")">>
       [] t[1] = "bin"  -> Yield(t[3]) \o <<t[2]>> \o Yield(t[4])
       [] t[1] = "pre"  -> <<t[2]>> \o Yield(t[3])
@@ -159,6 +194,9 @@ RECURSIVE Laws(_, _), LawsArgs(_, _)
 LawsArgs(ops, as) == \A i \in 1..Len(as) : Laws(ops, as[i])
 Laws(ops, t) ==
     CASE t[1] = "atom" -> TRUE
+      [] t[1] = "empty" -> TRUE
+      [] t[1] = "nv"   -> Laws(ops, t[2]) /\ Laws(ops, t[3])            \* both sides are complete expressions
+      [] t[1] = "map"  -> LawsArgs(ops, t[2])
       [] t[1] = "par"  -> Laws(ops, t[2])                                   \* parentheses override everything
       [] t[1] = "bin"  -> /\ LeftOk(ops, t[3], BinLevel(ops, t[2]), BinRight(ops, t[2]))
                           /\ RightOk(ops, t[4], BinLevel(ops, t[2]), BinRight(ops, t[2]))
